@@ -96,6 +96,13 @@ pub struct LintConfig {
   pub default_jsx_fragment_factory: Option<String>,
 }
 
+#[cfg(feature = "verif_hooks")]
+impl Linter {
+  pub(crate) fn verif_rule_codes(&self) -> Vec<&'static str> {
+    self.ctx.rules.iter().map(|r| r.code()).collect()
+  }
+}
+
 impl Linter {
   pub fn new(options: LinterOptions) -> Self {
     let ctx = LinterContext::new(options);
